@@ -53,7 +53,7 @@ fn real_step<I: DoubleEndedIterator>(it: &mut I, e: End) -> Option<I::Item> {
 
 /// Whole-iterator consumers and adaptors on fresh iterators (`make` creates one): last, count, fold,
 /// skip(k), step_by(k), rev().skip(k), nth(k) for k around the length - against the plain item list.
-fn adaptors_agree<I, T>(what: &str, exact: bool, make: impl Fn() -> I, items: &[T], conv: impl Fn(I::Item) -> T + Copy) -> Result<(), String>
+pub fn adaptors_agree<I, T>(what: &str, exact: bool, make: impl Fn() -> I, items: &[T], conv: impl Fn(I::Item) -> T + Copy) -> Result<(), String>
 where
     I: DoubleEndedIterator,
     T: PartialEq + Clone + std::fmt::Debug,
@@ -162,6 +162,60 @@ where
         let (lo, hi) = it.size_hint();
         if (exact && (lo, hi) != (left, Some(left))) || lo > left || hi.is_some_and(|h| h < left) {
             return Err(format!("{what}: after nth({k}) size_hint is {:?}, {left} items are left", (lo, hi)));
+        }
+    }
+    Ok(())
+}
+
+/// What `ExactSizeIterator` adds: `len()` at every stage, and the adaptors that rely on it
+/// (enumerate / zip / skip / take from the back, rposition).
+pub fn exact_size_agree<I>(what: &str, make: impl Fn() -> I, n: usize) -> Result<(), String>
+where
+    I: ExactSizeIterator + DoubleEndedIterator,
+{
+    let mut it = make();
+    for left in (0..=n).rev() {
+        if it.len() != left {
+            return Err(format!("{what}: len() = {} with {left} of {n} items left", it.len()));
+        }
+        let step = if left % 2 == 0 { it.next().is_some() } else { it.next_back().is_some() };
+        if step != (left > 0) {
+            return Err(format!("{what}: next()/next_back() with {left} items left returned {}", if step { "an item" } else { "None" }));
+        }
+    }
+    if make().enumerate().next_back().map(|(i, _)| i) != n.checked_sub(1) {
+        return Err(format!("{what}.enumerate().next_back() does not carry index {:?}", n.checked_sub(1)));
+    }
+    if make().rposition(|_| true) != n.checked_sub(1) {
+        return Err(format!("{what}.rposition(|_| true) is not {:?}", n.checked_sub(1)));
+    }
+    for k in [0usize, 1, n / 2, n, n + 1] {
+        if make().skip(k).len() != n.saturating_sub(k) || make().take(k).len() != k.min(n) {
+            return Err(format!("{what}.skip({k}).len() / take({k}).len() wrong for {n} items"));
+        }
+        if make().skip(k).next_back().is_some() != (k < n) || make().take(k).next_back().is_some() != (k.min(n) > 0) {
+            return Err(format!("{what}.skip({k}).next_back() / take({k}).next_back() wrong for {n} items"));
+        }
+        if make().zip(0..k).next_back().map(|(_, j)| j) != k.min(n).checked_sub(1) {
+            return Err(format!("{what}.zip(0..{k}).next_back() wrong for {n} items"));
+        }
+    }
+    Ok(())
+}
+
+/// `FusedIterator`: once either end has reported None, every later call from either end reports None.
+pub fn fused_agree<I: DoubleEndedIterator>(what: &str, mut it: I) -> Result<(), String> {
+    let mut n = 0usize;
+    while it.next().is_some() {
+        n += 1;
+        if n > 10_000_000 {
+            return Err(format!("{what} never ends"));
+        }
+    }
+    for k in 0..4 {
+        let again = if k % 2 == 0 { it.next().is_some() } else { it.next_back().is_some() };
+        if again {
+            return Err(format!("{what} yields an item after it had reported the end ({n} items)"));
         }
     }
     Ok(())
@@ -392,6 +446,9 @@ pub fn check_frame(case: &FrameCase) -> CaseResult {
                 if let Err(e) = adaptors_agree("fields()", false, || frame.fields(), &want, |x| x) {
                     bail!("op {i} {e}");
                 }
+                if let Err(e) = fused_agree("fields()", frame.fields()).and_then(|()| fused_agree("frame.clone().into_iter()", frame.clone().into_iter())) {
+                    bail!("op {i} {e}");
+                }
                 let owned: Vec<(String, String)> = want.iter().map(|(k, v)| (k.to_string(), v.to_string())).collect();
                 if let Err(e) = adaptors_agree("frame.clone().into_iter()", false, || frame.clone().into_iter(), &owned, |(k, v)| (k.to_string(), v)) {
                     bail!("op {i} {e}");
@@ -582,6 +639,22 @@ pub fn check_resp(case: &RespCase) -> CaseResult {
             Err(er) => It::E(conv_err(&er)),
         }) {
             bail!("{e}");
+        }
+    }
+
+    // ExactSizeIterator and FusedIterator are implemented for both: len() at every stage, the adaptors
+    // built on it, and None for good once exhausted
+    {
+        let n = items.len();
+        for res in [
+            exact_size_agree("frames()", || resp.frames(), n),
+            exact_size_agree("response.clone().into_iter()", || resp.clone().into_iter(), n),
+            fused_agree("frames()", resp.frames()),
+            fused_agree("response.clone().into_iter()", resp.clone().into_iter()),
+        ] {
+            if let Err(e) = res {
+                bail!("{e}");
+            }
         }
     }
 
